@@ -528,15 +528,83 @@ func blocksU32(c *seq.Ctx) {
 	}
 }
 
+// bigLists: lists of 2-4 blocks whose member counts add up to both sides of 1024 and 2048 (the size of
+// one block), read back with every n around the totals: exactly the first min(n, total) members.
+func bigLists(c *seq.Ctx) {
+	counts := [][]int{{1024, 1}, {1, 1024}, {600, 424, 1}, {600, 424}, {1023, 1}, {1024, 1024}, {1024, 1024, 1}, {512, 512, 512, 513}, {1, 1, 1, 1}, {1000, 24, 1}}
+	for _, cs := range counts {
+		total := 0
+		var tips bm.U32BitTips
+		var bigs bm.BigU32s
+		var asc []uint32
+		bad := ""
+		for bi, n := range cs {
+			start := uint32(7 + 3*bi) // ascending, non-adjacent blocks
+			tip := bm.NewU32BitTipFromU32(start * 1024)
+			big, err := bm.NewBigU32FromI64(int64(start) * 1024)
+			if err != nil {
+				bad = "NewBigU32FromI64: " + err.Error()
+				break
+			}
+			for m := 0; m < n; m++ {
+				off := uint32(m)
+				if n < 1024 {
+					off = uint32(m * 1023 / n) // spread over the block, strictly increasing for n <= 1024
+					if m > 0 && off <= asc[len(asc)-1]-start*1024 {
+						off = asc[len(asc)-1] - start*1024 + 1
+					}
+				}
+				v := start*1024 + off
+				if e := tip.SetU32(v); e != nil {
+					bad = fmt.Sprintf("SetU32(%d): %v", v, e)
+				}
+				if e := big.SetI64(int64(v)); e != nil {
+					bad = fmt.Sprintf("SetI64(%d): %v", v, e)
+				}
+				asc = append(asc, v)
+			}
+			tips = append(tips, tip)
+			bigs = append(bigs, big)
+			total += n
+		}
+		for _, n := range []int{0, 1, 1023, 1024, 1025, 2047, 2048, 2049, total - 1, total, total + 1, 5000} {
+			if n < 0 || bad != "" {
+				continue
+			}
+			want := n
+			if want > total {
+				want = total
+			}
+			f := tips.GetNAsU32(n)
+			rv := tips.RGetNAsU32(n)
+			bf := bigs.GetNAsI64(n)
+			br := bigs.RGetNAsI64(n)
+			switch {
+			case len(f) != want || len(rv) != want || len(bf) != want || len(br) != want:
+				bad = fmt.Sprintf("blocks with %v members (total %d), n=%d: U32BitTips.GetNAsU32 gave %d, RGetNAsU32 %d, BigU32s.GetNAsI64 %d, RGetNAsI64 %d items, want %d", cs, total, n, len(f), len(rv), len(bf), len(br), want)
+			default:
+				for i := 0; i < want; i++ {
+					if f[i] != asc[i] || rv[i] != asc[total-1-i] || bf[i] != int64(asc[i]) {
+						bad = fmt.Sprintf("blocks with %v members, n=%d: item %d is %d (forward) / %d (reverse) / %d (BigU32s), want %d / %d / %d", cs, n, i, f[i], rv[i], bf[i], asc[i], asc[total-1-i], asc[i])
+						break
+					}
+				}
+			}
+		}
+		c.Case(fmt.Sprintf("biglists/%v", bad == ""), bad, "a list of blocks does not iterate back to exactly the first min(n, total) members", func() interface{} { return cs })
+	}
+}
+
 func main() {
 	r := ev.Start("C09")
-	r.Rule("Marshal->Unmarshal->Equal over member counts 0,1,2,3,16,62..66,127,128,512,1023,1024 in five placements, every run of 1..65 consecutive indices at every start and stride-2/3 combs, plus all subsets of a 12-index boundary alphabet (both encodings, the 63/64 switch); Unmarshal of all byte strings of length 0..2, length 3-4 over a 6-byte alphabet, and for every length 5..130 zero/ff/ascending/one-invalid-element-at-each-position/duplicate fills, against the denoted set; block types over boundary starts (incl. 2^22±1, 2^31, 2^32-2) and every in-block offset for the 32-bit tips; distinct = outcome classes")
+	r.Rule("Marshal->Unmarshal->Equal over member counts 0,1,2,3,16,62..66,127,128,512,1023,1024 in five placements, every run of 1..65 consecutive indices at every start and stride-2/3 combs, plus all subsets of a 12-index boundary alphabet (both encodings, the 63/64 switch); Unmarshal of all byte strings of length 0..2, length 3-4 over a 6-byte alphabet, and for every length 5..130 zero/ff/ascending/one-invalid-element-at-each-position/duplicate fills, against the denoted set; block types over boundary starts (incl. 2^22±1, 2^31, 2^32-2) and every in-block offset for the 32-bit tips; lists of 2-4 blocks with totals on both sides of 1024 and 2048 members read back with every n around the totals; distinct = outcome classes")
 	r.Assume("a byte string denotes: empty set (len 0); LE u16 member list (even len < 128, every element <= 1023); 16 LE words (len 128); nothing otherwise")
 	fams := []seq.Family{
 		{Name: "marshal-roundtrip", Run: marshalFamily},
 		{Name: "unmarshal-arbitrary", Run: unmarshalFamily},
 		{Name: "bigu32-blocks", Run: blocksI64},
 		{Name: "u32bittip-blocks", Run: blocksU32},
+		{Name: "block-lists-around-1024-members", Run: bigLists},
 	}
 	var jobs []func()
 	for _, f := range fams {
